@@ -57,6 +57,13 @@ func genSubscribe() *leanFile {
 		lost = append(lost, commitlogGo+":commitLog.LatestOffsetBeforeTimestamp: timestamp < seg.FirstWriteTime()")
 	}
 	l.def("tsLatestEmptyCheck", "Bool", fmt.Sprint(anyHas(lc0, "seg.IsEmpty() || timestamp < seg.FirstWriteTime()")), "LatestOffsetBeforeTimestamp refuses an empty first segment")
+	exact := len(callPositions(commitlogGo, "commitLog.LatestOffsetBeforeTimestamp", "seg.findLatestEntryByTimestamp")) > 0
+	l.def("tsLatestExact", "Bool", fmt.Sprint(exact), "LatestOffsetBeforeTimestamp returns the last ENTRY at or before the timestamp (not 'first later offset - 1')")
+	if exact {
+		l.cmp("tsLatestCmp", segmentGo, "segment.findLatestEntryByTimestamp", "entry.Timestamp ? timestamp", 0, "gt")
+	} else {
+		l.def("tsLatestCmp", "Cmp", ".gt", "")
+	}
 	// getStopOffset: read-only partitions stop at the newest offset (forward only?)
 	sc := condTexts(partitionGo, "partition.getStopOffset")
 	switch {
